@@ -19,6 +19,7 @@ structure DState where
   st      : State := State.init hashPrime
   reg     : Array RegEntry := #[]
   cur     : Current := { newA := default, newArrayA := default, mallocA := default }
+  threadSafe : Bool := false     -- the g* operations go through the thread-safe overloads
   base    : Nat := 0      -- real address of the printed address 0 (environment, from the setup lines)
 deriving Inhabited
 
@@ -134,6 +135,21 @@ def familyOf? : String → Option Family
   | "malloc" => some .malloc
   | _ => none
 
+/-- name of the release wrapper of the source that serves the family in the current overload mode -/
+def wrapperName (threadSafe : Bool) (f : Family) : String :=
+  (if threadSafe then "threadsafe_" else "") ++
+  (match f with
+   | .malloc => "mem_leak_free"
+   | .new => "mem_leak_operator_delete"
+   | .newArray => "mem_leak_operator_delete_array")
+
+/-- release through an overload: as the regenerated description of that wrapper says (falls back to the modelled
+    `release` when the table has no such wrapper) -/
+def releaseVia (d : DState) (f : Family) (addr : Nat) (file : String) (line : Nat) : State × List Ev :=
+  match Gen.LeakDetector.releaseWrappers.find? (fun w => w.name == wrapperName d.threadSafe f) with
+  | some w => releaseBy w d.cur d.st addr file line
+  | none => release d.cur f d.st addr file line
+
 def curEntry (d : DState) (f : Family) : RegEntry :=
   let a := d.cur.of f
   (d.reg.find? (fun e => e.alloc == a)).getD { alloc := a, recording := false }
@@ -200,6 +216,8 @@ def modelStepRaw (d : DState) (op : List String) (obs : List (List String)) : DS
     | some p => fin { d with st := clearAllAccounting d.st p } []
     | none => (d, ["bad-op"])
   | ["mark"] => fin { d with st := markChecking d.st } []
+  | ["overloads", "threadsafe"] => fin { d with threadSafe := true } []
+  | ["overloads", "plain"] => fin { d with threadSafe := false } []
   | ["drop", _] => fin d []        -- the client returns an untracked block to the underlying allocator: not the detector's business
   | ["report", p] =>
     match periodOf? p with
@@ -233,7 +251,7 @@ def modelStepRaw (d : DState) (op : List String) (obs : List (List String)) : DS
       if g == "gfree" then
         match size.toNat?, line.toNat? with
         | some addr, some line =>
-          let r := release d.cur .malloc d.st addr file line
+          let r := releaseVia d .malloc addr file line
           fin { d with st := r.1 } (r.2.map (renderEv 0 (showSizes (curEntry d .malloc))))
         | _, _ => (d, ["bad-op"])
       else (d, ["bad-op"])
@@ -241,7 +259,7 @@ def modelStepRaw (d : DState) (op : List String) (obs : List (List String)) : DS
     let fam : Option Family := if g == "gdelete" then some .new else if g == "gdeletearray" then some .newArray else none
     match fam, addr.toNat? with
     | some f, some addr =>
-      let r := release d.cur f d.st addr "<unknown>" 0
+      let r := releaseVia d f addr "<unknown>" 0
       fin { d with st := r.1 } (r.2.map (renderEv 0 (showSizes (curEntry d f))))
     | _, _ => (d, ["bad-op"])
   | _ => (d, ["bad-op"])
